@@ -24,7 +24,19 @@ import (
 	"time"
 )
 
-const verif = "/verif"
+// verif is the root of the verification tree: the directory above bin/ of this executable
+// (so that a snapshot started with `vp run` stays inside its snapshot), else /verif.
+var verif = func() string {
+	if exe, err := os.Executable(); err == nil {
+		if d := filepath.Dir(filepath.Dir(exe)); fileExists(filepath.Join(d, "MANIFEST.json")) {
+			return d
+		}
+	}
+	return "/verif"
+}()
+
+func fileExists(p string) bool { _, err := os.Stat(p); return err == nil }
+
 const repo = "/repo"
 
 type unitInfo struct {
@@ -466,7 +478,7 @@ func must(err error) {
 
 // build rewrites and compiles the harness (and the plain CLI binary) from /repo's working tree.
 func build(work string, race bool, cli bool) (ha string, taskBin string, err error) {
-	out, e := run(verif, buildEnv(), filepath.Join(verif, "bin", "vrewrite"), "-out", work)
+	out, e := run(verif, buildEnv(), filepath.Join(verif, "bin", "vrewrite"), "-out", work, "-verif", verif)
 	if e != nil {
 		return "", "", fmt.Errorf("vrewrite: %v\n%s", e, out)
 	}
